@@ -5,7 +5,7 @@ cd "$(dirname "$0")/.."
 P=${1:-2}; shift
 ids=${@:-$(ls seeded | grep "^C[0-9][0-9]-[0-9]*$")}
 one() {
-  id=$1; p=${id%%-*}; d=seeded/$id
+  id=$1; p=${id%%-*}; d=$PWD/seeded/$id
   W=$(mktemp -d /tmp/swp.XXXXXX); rmdir "$W"
   git -C /repo worktree add --detach "$W" HEAD >/dev/null 2>&1 || { echo "$id worktree-failed"; return; }
   pf="$d/patch.diff"; [ -f "$d/patch_on_fixed.diff" ] && pf="$d/patch_on_fixed.diff"
